@@ -511,7 +511,8 @@ UPGRADER:
 			return ErrInvalidChunkSize
 		case stateBodyChunkSize:
 			switch c {
-			case ' ':
+			case ' ', '\t':
+				// optional whitespace behind the size, before a chunk extension
 				if p.chunkSize < 0 {
 					chunkSize, err := parseAndValidateChunkSize(string(data[start:i]))
 					if err != nil {
@@ -519,6 +520,16 @@ UPGRADER:
 					}
 					p.chunkSize = chunkSize
 				}
+			case ';':
+				// a chunk extension follows, it ends with the line
+				if p.chunkSize < 0 {
+					chunkSize, err := parseAndValidateChunkSize(string(data[start:i]))
+					if err != nil {
+						return err
+					}
+					p.chunkSize = chunkSize
+				}
+				p.nextState(stateBodyChunkExt)
 			case '\r':
 				if p.chunkSize < 0 {
 					chunkSize, err := parseAndValidateChunkSize(string(data[start:i]))
@@ -530,13 +541,16 @@ UPGRADER:
 				start = i + 1
 				p.nextState(stateBodyChunkSizeLF)
 			default:
-				if !isHex(c) && p.chunkSize < 0 {
-					chunkSize, err := parseAndValidateChunkSize(string(data[start:i]))
-					if err != nil {
-						return err
-					}
-					p.chunkSize = chunkSize
+				// the size is hex digits only; anything else behind it must be
+				// introduced by ';'.
+				if !isHex(c) || p.chunkSize >= 0 {
+					return ErrInvalidChunkSize
 				}
+			}
+		case stateBodyChunkExt:
+			if c == '\r' {
+				start = i + 1
+				p.nextState(stateBodyChunkSizeLF)
 			}
 		case stateBodyChunkSizeLF:
 			if c == '\n' {
